@@ -102,6 +102,13 @@ func (d *cacheDriver) search(q string, o database.SearchOptions, mon bool) {
 		ev.Hit = d.hits() > h0
 		ev.NRes = len(res)
 		ev.Ans = d.in.answerID(d.c, toHits(res))
+		// the caller owns the answer: re-sort and rescale it in place, as a display layer might
+		for i, j := 0, len(res)-1; i < j; i, j = i+1, j-1 {
+			res[i], res[j] = res[j], res[i]
+		}
+		for i := range res {
+			res[i].Score = -1
+		}
 		// oracle: the uncached engine on the same database, now
 		ev.Fresh = d.in.answerID(d.c, toHits(d.mdb.SearchUniversal(q, o)))
 	}()
@@ -231,6 +238,7 @@ func cacheRandom(args []string) int {
 						s.Limit = []int{0, 1, 3, 5, 7, 40}[r.Intn(6)]
 					case 1:
 						s.Boost = true
+						s.BoostV = r.Intn(4)
 					case 2:
 						s.POnly = true
 					case 3:
